@@ -4,7 +4,6 @@ import (
 	"rare/pkg/expressions"
 	"rare/pkg/expressions/funclib"
 	"rare/pkg/matchers"
-	"sync"
 
 	zz "rare/pkg/zzverif"
 )
@@ -134,13 +133,12 @@ func H01Truthy() {
 	zz.Reached()
 }
 
-// H01Worker: the real worker loop over 1..2 batches of a closed input channel
-// (run to completion, one worker): every line of every batch is processed
+// H01Worker: the real extractor (New + worker loop) over 1..2 batches of a closed input channel
+// (workers run to completion one after the other): every line of every batch is processed
 // once, matches come out in input order with LineNumber = BatchStart + index
 // and the batch's source, and the counters equal the true counts.
 func H01Worker() {
 	m := &zzMatcher{groups: 2}
-	e := &Extractor{readChan: make(chan []Match, 5), matcherFactory: zzFact{m}, keyBuilder: zzCompile("{1}")}
 	in := make(chan InputBatch, 4)
 	nb := 1 + zz.Choice(2)
 	type exp struct {
@@ -161,10 +159,9 @@ func H01Worker() {
 		in <- batch
 	}
 	close(in)
-	var wg sync.WaitGroup
-	wg.Add(1)
-	e.asyncWorker(&wg, in)
-	close(e.readChan)
+	// the public constructor: starts the workers (run to completion here) and closes the output when they are done
+	e, err := New(in, &Config{Matcher: zzFact{m}, Extract: "{1}", Workers: 1 + zz.Choice(2)})
+	zz.Assert(err == nil, "extractor rejected")
 	pos := 0
 	var matched uint64
 	for mb := range e.readChan {
